@@ -54,29 +54,35 @@ class Rec:
         return self.inner.write_signature_value(wire, contents)
 
 
-def verifier_accepts(kind, name, sig):
-    """the matching verifier of the library, on the ideal primitives"""
+def verifier_accepts(kind, name, sig, warm=None):
+    """the matching verifier of the library, on the ideal primitives.  ``warm`` = (name, sig) of another packet that the
+    SAME verifier object is shown first (a verifier checks many packets in its life; the genuine one may come first)"""
     from ndn.security.validator import known_key_validator as kv
     from ndn.security.validator import digest_validator as dv
     if kind == 'digest':
+        if warm is not None:
+            run_sync(dv.sha256_digest_checker(*warm))
         return run_sync(dv.sha256_digest_checker(name, sig))
     if kind == 'hmac':
         a = kv.verify_hmac(b'hmac-key-k', sig)
-        b = run_sync(kv.HmacChecker.from_key(env.KEY_NAME, b'hmac-key-k')(name, sig))
+        chk = kv.HmacChecker.from_key(env.KEY_NAME, b'hmac-key-k')
     elif kind == 'rsa':
         a = kv.verify_rsa(crypto.RSA.import_key(crypto.make_key('rsa', 'k')), sig)
-        b = run_sync(kv.RsaChecker.from_key(env.KEY_NAME, crypto.make_key('rsa', 'k'))(name, sig))
+        chk = kv.RsaChecker.from_key(env.KEY_NAME, crypto.make_key('rsa', 'k'))
     elif kind == 'ecdsa':
         a = kv.verify_ecdsa(crypto.ECC.import_key(crypto.make_key('ecc', 'k')), sig)
-        b = run_sync(kv.EccChecker.from_key(env.KEY_NAME, crypto.make_key('ecc', 'k'))(name, sig))
+        chk = kv.EccChecker.from_key(env.KEY_NAME, crypto.make_key('ecc', 'k'))
     elif kind == 'ed25519':
         a = kv.verify_ed25519(crypto.ECC.import_key(crypto.make_key('ed', 'k')), sig)
-        b = run_sync(kv.Ed25519Checker.from_key(env.KEY_NAME, crypto.make_key('ed', 'k'))(name, sig))
+        chk = kv.Ed25519Checker.from_key(env.KEY_NAME, crypto.make_key('ed', 'k'))
     else:
         raise AssertionError(kind)
-    if bool(a) != bool(b):
+    if warm is not None:
+        run_sync(chk(*warm))
+    b = run_sync(chk(name, sig))
+    if warm is None and bool(a) != bool(b):
         raise AssertionError('verify_* and *Checker disagree')
-    return a
+    return And(a, b) if warm is None else b
 
 
 def spec_ranges(w, pkt):
@@ -300,7 +306,15 @@ def h_tamper(eng, case):
         eng.reach('end')
         return
     try:
-        acc = verifier_accepts(kind, n2, sig)
+        warm = None
+        if case.get('warm'):
+            # the verifier object has accepted the genuine packet just before
+            if pkt == 'data':
+                n0, _m0, _c0, sig0 = enc.parse_data(wire)
+            else:
+                n0, _p0, _a0, sig0 = enc.parse_interest(wire)
+            warm = (n0, sig0)
+        acc = verifier_accepts(kind, n2, sig, warm)
     except Exception as e:
         eng.fail('verifier-no-exception', exc_sig(e), repr(e)[:120])
         return
@@ -378,6 +392,10 @@ def cases(tier, seed):
             for k in range(0, n, step):
                 cs.append(('tamper', {'pkt': pkt, 'signer': kind, 'op': 'byte', 'pos': k, 'rmin': 70, 'payload': 1,
                                       'shape': [[1, 1]]}))
+            # the same edits shown to a verifier object that has just accepted the genuine packet
+            for k in range(0, n, 4 if quick else 1):
+                cs.append(('tamper', {'pkt': pkt, 'signer': kind, 'op': 'byte', 'pos': k, 'rmin': 70, 'payload': 1,
+                                      'shape': [[1, 1]], 'warm': True}))
             for k in range(0, n, 2 if quick else 1):
                 cs.append(('tamper', {'pkt': pkt, 'signer': kind, 'op': 'trunc', 'pos': k, 'rmin': 72, 'payload': 1,
                                       'shape': [[1, 1]]}))
